@@ -9,13 +9,26 @@ META["explanation"] = ("Partial: the wiring that makes the constrained estimator
                        "(theorems T2, T3) and termination and is not decided.")
 META["not_decided"] = ["estimate physical to the accuracy of the stopping thresholds (convergence of Dykstra / projected gradient)",
                        "exact recovery from exact data by the iterative estimators", "termination"]
-CLASSES = ["contracts.C10_all:ConstraintWiring", "contracts.C10_all:ProjectedLinear", "contracts.C10_all:StartPoint"]
+CLASSES = ["contracts.C10_all:ConstraintWiring", "contracts.C10_all:ProjectedLinear", "contracts.C10_all:StartPoint", "contracts.C10_all:DykstraUnderC10"]
+
+
+def job_backtracking_loop(n, mode, seed=0, timeout_s=10.0):
+    """the C11 loop-invariant contract of the backtracking loop, under C10: every iterate is a projection or a convex combination of feasible points"""
+    from qverif.pyvc.verify import verify
+    from . import C11_e1 as C
+    return verify(C.optimize_contract(n, mode, True, True, prop="C10"), f"C10/backtracking-loop[n={n},{mode}]", timeout_s=timeout_s, seed=seed)
 
 
 def jobs(tier, seed):
-    return e2_jobs("C10", CLASSES, tier, seed)
+    from qverif.core.runner import Job
+    from . import C11_e1 as C
+    js = e2_jobs("C10", CLASSES, tier, seed)
+    for mode in C.MODES:
+        js.append(Job(f"C10/backtracking-loop/{mode}", "contracts.C10:job_backtracking_loop",
+                      dict(n=2, mode=mode, seed=seed, timeout_s=10.0 if tier == "quick" else 60.0), timeout_s=600.0))
+    return js
 
-CLAIM = {'engine': 'E2-symtwin', 'level': 'other',
+CLAIM = {'engine': 'E2-symtwin + E1-pyvc', 'level': 'other',
  'text': 'PARTIAL. With the constraint projections as uninterpreted functions the wiring that makes the constrained estimators physical is proved on the unmodified code: set_constraint_from_standard_qt_and_option installs, for all three projected-gradient algorithms, all tomography types and both parametrisations, exactly the physical / equality-only / inequality-only / identity projection the two constraint flags name (the physical one being Dykstra\'s scheme of C05); the projected linear estimate is precisely to_var(calc_proj_physical(linear estimate)) in the estimator\'s projection order, with and without timing, one estimate per dataset, inputs unchanged; without var_start the backtracking algorithm starts at the origin object (maximally mixed state / uniform POVM / trace-preserving gate).',
- 'note': 'NOT decided: that the returned estimate is physical to the accuracy of the stopping thresholds and recovers exact data (convergence of Dykstra and of projected gradient: theorems, not contracts over one call), termination. Feasibility of every backtracking iterate given the projection contract is C11\'s loop invariant. Observation (not a violation of the property as stated): the algorithm option mode_proj_order is accepted and ignored by func_calc_proj_physical_with_var; the template object\'s order is used.',
+ 'note': 'NOT decided: that the returned estimate is physical to the accuracy of the stopping thresholds and recovers exact data (convergence of Dykstra and of projected gradient: theorems, not contracts over one call), termination. Feasibility of every backtracking iterate given the projection contract (C11\'s loop-invariant contract) and the Dykstra recurrence of calc_proj_physical (C05\'s contract) are re-checked under C10 as the callee contracts it rests on. Observation (not a violation of the property as stated): the algorithm option mode_proj_order is accepted and ignored by func_calc_proj_physical_with_var; the template object\'s order is used.',
  'technique': 'contract-based deductive verification with uninterpreted callee contracts (symbolic execution of the real code, z3)'}
